@@ -2,7 +2,7 @@
 From Coq Require Import QArith Qround Sorted.
 From HTA.lib Require Import Base.
 From HTA.model Require Import Loader_Model.
-From HTA.proof Require Import Loader_Proofs.
+From HTA.proof Require Import Loader_Proofs C12_Proofs.
 Open Scope Z_scope.
 
 (* rows <-> complete entries, identified by their position in traceEvents, in increasing order, none twice *)
@@ -53,6 +53,13 @@ Theorem C01_load_rows : forall incl files j e,
   exists e0, In e0 (nth j (map parse_rank files) []) /\ e = shift (global_min (map parse_rank files)) e0.
 Proof. exact load_rows. Qed.
 Print Assumptions C01_load_rows.
+
+(* exactly ONE row per complete event also after a full load, for any file set and any event mix: every row id (= position in the
+   file) occurs at most once in every rank -- with C01_load_rows, the loaded rows are an injective image of the parsed rows.  (Before
+   1af5ed4 a device row was repeated once per extra kept host row carrying its correlation id.) *)
+Theorem C01_load_ids_unique : forall incl files j, NoDup (map idx (nth j (load incl files) [])).
+Proof. exact load_ids_unique. Qed.
+Print Assumptions C01_load_ids_unique.
 
 (* fractional timestamps: start rounded up, end rounded down, for all rationals *)
 Theorem C01_round_inward : forall t e : Q,
